@@ -77,7 +77,7 @@ fn variant_block<T: Real + Elem>(ctx: &mut Ctx, lens: &[usize]) {
 }
 
 pub fn run_c13(ctx: &mut Ctx) {
-    let (n_max, s_max) = if ctx.quick() { (192, 1 << 13) } else { (2048, 1 << 16) };
+    let (n_max, s_max) = if ctx.quick() { (1024, 1 << 14) } else { (4096, 1 << 16) };
     let mut lens: Vec<usize> = (0..=n_max).collect();
     let dense = (8 * n_max).min(s_max);
     lens.extend(structured_lengths(dense as u64).into_iter().map(|x| x as usize).filter(|&x| x > n_max));
